@@ -147,7 +147,11 @@ def real_parse(text):
         d = todict.to_dict(a)
     except Exception as e:  # noqa
         return "crash todict:" + type(e).__name__, a
-    line = "ok %s %s %s %s %s %s" % (ser_decl(d), _txt(a.gen_decl), _txt(a.gen_arg_as_cxx), _txt(a.gen_arg_as_c),
+    try:
+        sd = ser_decl(d)
+    except Exception as e:  # noqa  (e.g. a name that is None: the parser built a malformed node)
+        return "crash structure:" + type(e).__name__, a
+    line = "ok %s %s %s %s %s %s" % (sd, _txt(a.gen_decl), _txt(a.gen_arg_as_cxx), _txt(a.gen_arg_as_c),
                                     _txt(a.as_cast), _txt(lambda: str(a)))
     return line, a
 
